@@ -60,6 +60,8 @@ type verifRequest struct {
 	// LazyDrain: the message queues are read only after the phase's workers have been joined (a slow consumer:
 	// every published message stays queued while all later datagrams of the phase are decoded and encoded)
 	LazyDrain bool `json:"lazy_drain"`
+	// Verbose: the workers run with verbose logging on (log output is discarded)
+	Verbose bool `json:"verbose"`
 
 	// options
 	Args   []string          `json:"args"`
@@ -123,6 +125,7 @@ func verifPipeline(req *verifRequest) (resp verifResponse) {
 		}
 	}
 	o.SFlowTypeFilter = req.Filter
+	o.Verbose = req.Verbose
 	opts = o
 	logger = o.Logger
 
